@@ -9,7 +9,7 @@ func genC01() *GenCfg {
 		Slabs:  quickSlabs,
 		MinOps: 1, MaxOps: 60,
 		W: map[string]int{
-			"app": 14, "ins": 12, "set": 10, "rem": 12, "get": 6, "pop": 2, "appN": 6, "remN": 5, "styp": 2, "grow": 2, "setN": 3,
+			"app": 14, "ins": 12, "set": 10, "rem": 12, "get": 6, "pop": 2, "appN": 6, "remN": 5, "styp": 2, "grow": 2, "setN": 3, "shrink": 1,
 			"badget": 2, "badset": 2, "badins": 2, "badrem": 2, "reget": 2,
 			"reopen": 2, "commit": 1, "evict": 1,
 		},
